@@ -79,6 +79,9 @@ func (w *world) goValue(g sx.S) interface{} {
 	case "int":
 		return sx.Int(l[1])
 	case "str":
+		if execNastyStrings { // C07: response strings with every class of character the JSON writer must escape
+			return "s" + l[1].(string) + execNasty[sx.Int(l[1])%len(execNasty)]
+		}
 		return "s" + l[1].(string)
 	case "bool":
 		return l[1].(string) != "0"
@@ -451,10 +454,25 @@ func dirsText(dirs []sx.S) string {
 }
 
 // selText renders selections in document order and records the node ids in the same order.
+// execNastyStrings makes string leaves carry control characters, quotes, backslashes, non-ASCII
+// and invalid UTF-8 (set by C07 only, which compares no data)
+var execNastyStrings bool
+var execNasty = []string{"", "\x01", "\x1f", "\x7f", "\"q\"", "\\", "\n\r\t\b\f", "é日😀", "\u2028\u2029", "\xff\xfe", "\x00", "/"}
+
+// docOffsets, when set, receives for every node appended to order the byte offset of its first token
+var docOffsets *[]int
+
+func noteOffset(b *strings.Builder) {
+	if docOffsets != nil {
+		*docOffsets = append(*docOffsets, b.Len())
+	}
+}
+
 func selText(b *strings.Builder, s sx.S, order *[]int) {
 	l := sx.List(s)
 	switch sx.Head(s) {
 	case "f":
+		noteOffset(b)
 		*order = append(*order, sx.Int(l[1]))
 		if a, ok := l[2].(string); ok && a != "-" {
 			b.WriteString("f" + a + ": ")
@@ -485,8 +503,13 @@ func selText(b *strings.Builder, s sx.S, order *[]int) {
 	case "in":
 		*order = append(*order, sx.Int(l[1]))
 		b.WriteString("...")
+		// the position of an inline fragment is that of the first token after "..." (and "on")
 		if a, ok := l[2].(string); ok && a != "-" {
-			b.WriteString(" on " + typeName(sx.Int(l[2])))
+			b.WriteString(" on ")
+			noteOffset(b)
+			b.WriteString(typeName(sx.Int(l[2])))
+		} else if docOffsets != nil {
+			*docOffsets = append(*docOffsets, b.Len()+1)
 		}
 		b.WriteString(dirsText(sx.List(l[3])[1:]))
 		b.WriteString(" {")
@@ -497,6 +520,9 @@ func selText(b *strings.Builder, s sx.S, order *[]int) {
 		b.WriteString(" }")
 	case "fr":
 		*order = append(*order, sx.Int(l[1]))
+		if docOffsets != nil {
+			*docOffsets = append(*docOffsets, b.Len()+3)
+		}
 		b.WriteString("...F" + l[2].(string))
 		b.WriteString(dirsText(sx.List(l[3])[1:]))
 	}
@@ -750,6 +776,15 @@ func collectPositions(sels []ggql.Selection, out *[][2]int) {
 
 func execExec(input sx.S) (obs sx.S) {
 	secs := sx.List(input)[1:]
+	root, w, fail := execSetup(secs)
+	if fail != nil {
+		return fail
+	}
+	return execRunDoc(secs, root, w)
+}
+
+// execSetup builds the world and the root of a case.
+func execSetup(secs []sx.S) (*ggql.Root, *world, sx.S) {
 	w := &world{nodes: map[int]*gnode{}, strat: map[int]bool{}, objs: map[int]interface{}{}}
 	for _, s := range section(secs, "strat") {
 		sl := sx.List(s)
@@ -780,7 +815,7 @@ func execExec(input sx.S) (obs sx.S) {
 	root := ggql.NewRoot(so)
 	types := section(secs, "schema")
 	if err := root.ParseString(schemaText(types)); err != nil {
-		return sx.L("schema-error", sx.Hex(err.Error()))
+		return nil, nil, sx.L("schema-error", sx.Hex(err.Error()))
 	}
 	if a := section(secs, "any"); len(a) > 0 && a[0].(string) != "0" {
 		root.AnyResolver = &anyRes{w: w}
@@ -794,10 +829,14 @@ func execExec(input sx.S) (obs sx.S) {
 				r = true
 			}
 			if err := root.RegisterType(newNodeObj(w, -1, id, r), typeName(id)); err != nil {
-				return sx.L("register-error", sx.Hex(err.Error()))
+				return nil, nil, sx.L("register-error", sx.Hex(err.Error()))
 			}
 		}
 	}
+	return root, w, nil
+}
+
+func execRunDoc(secs []sx.S, root *ggql.Root, w *world) (obs sx.S) {
 	text, order := docText(section(secs, "doc"))
 	defer func() {
 		if r := recover(); r != nil {
